@@ -46,6 +46,8 @@ type SRHistory struct {
 	Events []SREvent `json:"events"`
 }
 
+var slackNotes int
+
 func srRun(c *corr.Ctx, h *SRHistory, name string) {
 	var now atomic.Int64
 	snd := &rtpsender.Sender{
@@ -85,7 +87,6 @@ func srRun(c *corr.Ctx, h *SRHistory, name string) {
 		lastK            int64
 		now              int64
 		e                int64 // ticks the report extrapolated (RTPTime - lastRTP, as the signed/unsigned 32-bit value)
-		exactHyp         bool
 	}
 	var reports []*rtcp.SenderReport
 	var anchors []anchor
@@ -137,25 +138,28 @@ func srRun(c *corr.Ctx, h *SRHistory, name string) {
 				a.e = int64(int32(sr.RTPTime - cur.lastRTP))
 			}
 			// ---- the float hypothesis of packet_ntp_within_tick, checked on the real value ----
-			// q = d·rate − e·10^9 must lie in [−rate, 10^9 + rate] (float error below 1 ns of time);
-			// the design's sharper form |q| ≤ 10^9 is counted.
+			// q = d·rate − e·10^9 must lie in [−10^9, 10^9 + rate]: the truncated float product is within one
+			// tick of the exact tick count d·rate/10^9 (plus 1 ns of time on the side where truncation already
+			// costs up to a tick).  The design's form |q| ≤ 10^9 and the ideal 0 ≤ q < 10^9 (e = floor) are counted.
 			q := new(big.Int).Sub(new(big.Int).Mul(big.NewInt(d), rate), new(big.Int).Mul(big.NewInt(a.e), e9))
 			inRange := d >= 0 && new(big.Int).Mul(big.NewInt(d), rate).Cmp(new(big.Int).Mul(big.NewInt(1<<32-2), e9)) < 0
 			if inRange {
-				lo := new(big.Int).Neg(rate)
+				lo := new(big.Int).Neg(e9)
 				hi := new(big.Int).Add(e9, rate)
 				if q.Cmp(lo) < 0 || q.Cmp(hi) > 0 {
 					viol("sender report extrapolates RTP time by elapsed·rate to within one tick", "sr-float-hypothesis",
 						fmt.Sprintf("event %d: elapsed %d ns, rate %d, extrapolated %d ticks (q=%s)", i, d, h.Rate, a.e, q))
 				}
-				if q.Sign() >= 0 && q.Cmp(e9) <= 0 {
-					a.exactHyp = true
+				if q.CmpAbs(e9) <= 0 {
 					c.Dist("sr:float-hypothesis-|q|<=1tick")
 				} else {
 					c.Dist("sr:float-hypothesis-only-with-1ns-slack")
 				}
 				if q.Sign() >= 0 && q.Cmp(e9) < 0 {
 					c.Dist("sr:float-product-is-floor")
+				} else if slackNotes < 3 {
+					slackNotes++
+					c.Note(fmt.Sprintf("float product differs from floor(elapsed*rate/10^9): elapsed %d ns, rate %d, extrapolated %d ticks, d*rate-e*10^9=%s", d, h.Rate, a.e, q))
 				}
 			} else {
 				c.Dist("sr:report-outside-uint32-range")
